@@ -11,4 +11,5 @@ INVARIANT DocImplAgree
 INVARIANT EnterSound
 INVARIANT ChainAgree
 INVARIANT ChainSound
+INVARIANT IrrelevantFree
 CHECK_DEADLOCK FALSE
